@@ -439,16 +439,27 @@ def read_form_fields_unit():
                clause='NOT: ' + clause, solver_output=(bad or ('', 'vacuous'))[1], witness={'detail': (bad or ('', 'vacuous'))[1]}, replay={'reproduced': False})]
 
 
+def field_value_units():
+    """The round trip is claimed for the values a solution can hold: the range of FieldType.value (exact p-decimals for a float
+    line of p places).  That range is the value() contract of C12; its obligations belong to C14 as well."""
+    from . import c12
+    out = []
+    for o in c12.field_contracts():
+        o.id = o.id.replace('C12/', 'C14/')
+        out.append(o)
+    return out
+
+
 def run(tier, seed, t0):
-    tasks = [Task('rt', roundtrip, weight=3), Task('bf', bounded_float_roundtrip, tier, weight=3), Task('cfg', to_config_unit), Task('main', main_year),
+    tasks = [Task('fieldvalue', field_value_units, weight=5), Task('rt', roundtrip, weight=3), Task('bf', bounded_float_roundtrip, tier, weight=3), Task('cfg', to_config_unit), Task('main', main_year),
              Task('fill', fill_pdfs_unit), Task('read', read_form_fields_unit)]
     obs = oblig.run_tasks(tasks)
     return oblig.finish('C14', tier, seed, obs, t0,
                         functions=['fields.py:BasicTypedField.to_string/from_string', 'fields.py:BooleanField.from_string', 'fields.py:FloatField.to_string/from_string',
-                                   'fields.py:EnumField.to_string/from_string', 'values.py:ValueStore.to_config', 'pdf_filler.py:PDFFiller._read_form_fields', '__init__.py:solve', '__init__.py:fill_pdfs'],
+                                   'fields.py:EnumField.to_string/from_string', 'fields.py:TypedField.value', 'fields.py:FloatField.value', 'values.py:ValueStore.to_config', 'pdf_filler.py:PDFFiller._read_form_fields', '__init__.py:solve', '__init__.py:fill_pdfs'],
                         trusted_base=base.TRUSTED,
                         assumptions=base.assumptions('A-PY', 'A-BUILTIN', 'A-CFG', 'A-REAL') + [
                             'A-BUILTIN: int(str(n)) == n; the fixed-point text f"{x:.pf}" of an exact p-decimal x denotes x and float() returns it; round(y, p) is a nearest p-decimal',
                             'INI transport of text (ConfigParser strips surrounding whitespace, multi-line values) is A-CFG and not verified here',
-                            'stored float values are exact p-decimals (C12)'],
+                            'stored float values are exact p-decimals: the value() contracts, proved here as C14/fields/*'],
                         checker_cmd='./check C14', min_obligations=12)
